@@ -35,10 +35,11 @@ def enum_part(out):
     for nv in ((1, 2) if vc.tier() == 'quick' else (1, 2, 3)):
         cands += [c for c in K.k_enum_definition(R, nv) if c['prop'] == PROP]
     import abstract_common as AC
-    rt = native.ReplayTool(sc)
+    import consumer
+    C = consumer.Consumer(sc)
     replayed = 0
     for c in cands[:1]:
-        ok, desc, rp = AC.confirm_enum_literals(rt, c['model'])
+        ok, desc, rp = AC.confirm_enum_literals(C, c['model'])
         replayed += 1
         if ok is False:
             out.violation('enum-literals:' + str(c['model'].get('normalization')).lower(), desc, rp)
@@ -64,9 +65,9 @@ def main():
 
 def replay(path):
     def other(p):
-        import native
+        import consumer
         import abstract_common as AC
-        ok, desc, _ = AC.confirm_enum_literals(native.ReplayTool(vc.scratch(PROP + 'r')), p['model'])
+        ok, desc, _ = AC.confirm_enum_literals(consumer.Consumer(vc.scratch(PROP + 'r')), p['model'])
         print(desc)
         return 1 if ok is False else 0
     return krun.replay_generic(PROP, build, lambda v: v == 'Ok', path, other=other)
